@@ -31,6 +31,10 @@ from pddl_plus_parser.models import (Domain, Operator, PDDLConstant, PDDLFunctio
                                      Predicate, State)
 from pddl_plus_parser.models import pddl_domain as _pddl_domain
 from pddl_plus_parser.multi_agent import MultiAgentDomainsConverter, PlanConverter
+from pddl_plus_parser.models import ActionCall
+from pddl_plus_parser.multi_agent import MultiAgentTrajectoryExporter
+from pddl_plus_parser.multi_agent import common as _ma_common
+from pddl_plus_parser.multi_agent import multi_agent_trajectory_exporter as _ma_traj
 
 TMP = Path(os.environ.get("VERIF_WORK", "/verif/work")) / "C07" / "tmp"
 
@@ -387,6 +391,7 @@ class Ctx:
         self.ops = []                              # Operator objects
         self.plans = []                            # lists of TrajectoryTriplet (results of parse_plan)
         self.plan_info = []                        # (domain handle, problem-state handle) of each plan
+        self.ma_plans = []                         # lists of MultiAgentTrajectoryTriplet (MultiAgentTrajectoryExporter.parse_plan)
         self.files = {}
         self.indep = indep                         # Indep or None
 
@@ -449,6 +454,90 @@ class Ctx:
         return pairs
 
 
+# ------------------------------------------------------------------------------------------ joint actions
+class Recorder:
+    """Keeps what a composite call (apply_actions, create_multi_agent_triplet, MultiAgentTrajectoryExporter.parse_plan)
+    creates and drops: every Operator the two multi-agent modules construct and every State that State.copy returns, in
+    creation order, and the initial State parse_plan builds (with its digest at creation).  The temporaries become live
+    handles of the history: nothing may change them later and they may share nothing with another value.  Patches module
+    attributes / State.copy for the duration of the call (histories run single-threaded)."""
+
+    def __enter__(self):
+        self.ops, self.copies, self.inits = [], [], []
+        rec = self
+        self._copy = State.copy
+        orig_copy = self._copy
+
+        def copy(self_state):
+            c = orig_copy(self_state)
+            rec.copies.append(c)
+            return c
+
+        def mk(*a, **kw):
+            o = Operator(*a, **kw)
+            rec.ops.append(o)
+            return o
+        orig_init = _ma_traj.create_initial_state
+
+        def init_state(problem):
+            st = orig_init(problem)
+            rec.inits.append((st, digest([st])))
+            return st
+        self._saved = [(_ma_common, "Operator", _ma_common.Operator), (_ma_traj, "Operator", _ma_traj.Operator),
+                       (_ma_traj, "create_initial_state", orig_init)]
+        State.copy = copy
+        _ma_common.Operator = mk
+        _ma_traj.Operator = mk
+        _ma_traj.create_initial_state = init_state
+        return self
+
+    def __exit__(self, *exc):
+        State.copy = self._copy
+        for mod, name, val in self._saved:
+            setattr(mod, name, val)
+        return False
+
+
+def _members(ctx, op):
+    """the ActionCall list of a joint action; members: [{"nop": true} | {"ai", "act", "args"}]"""
+    return [ActionCall("nop", []) if m.get("nop") else ActionCall(m["act"], list(m["args"])) for m in op["members"]]
+
+
+def _joint_text(members):
+    return "[%s]" % ",".join("(nop )" if m.get("nop") else "(%s %s)" % (m["act"], " ".join(m["args"])) for m in members)
+
+
+def _applicable_facts(dom, st, members, objs):
+    """value-level facts the footprint model takes as inputs: is each acting member applicable in the state the joint
+    action is applied to?  (asked of operators of the driver's own, before the call)"""
+    out = []
+    for m in members:
+        if m.get("nop"):
+            continue
+        try:
+            out.append(bool(Operator(dom.actions[m["act"]], dom, list(m["args"]), objs).is_applicable(st)))
+        except Exception as e:  # noqa
+            out.append("raised %s" % type(e).__name__)
+    return out
+
+
+def _register_joint(ctx, rec, kept, register):
+    """the operators and states a composite call created become live handles, in creation order; `kept`: the states the
+    caller keeps (registered too when they are not among the recorded copies, i.e. when no copy was made)"""
+    base_s, base_o = len(ctx.sts), len(ctx.ops)
+    n_s = 0
+    if register:
+        ctx.ops.extend(rec.ops)
+    seen = set()
+    for st in list(rec.copies) + list(kept):
+        if id(st) not in seen:
+            seen.add(id(st))
+            n_s += 1
+            if register:
+                ctx.sts.append((st, None))
+    return {"base_s": base_s, "base_o": base_o, "n_ops": len(rec.ops), "n_states": n_s}
+
+
 def state_res(st):
     # `canon` is the state as a VALUE (fact set + fluent map): the insertion order of a successor's dict keys
     # depends on the order in which the operator's effect groups (a set of address-hashed objects) were applied,
@@ -478,7 +567,7 @@ def resolve(op, ctx):
     """Relative references (any non-negative integer) are resolved modulo the number of live handles."""
     r = dict(op)
     for key, pool in (("dom", ctx.doms), ("st", ctx.sts), ("st2", ctx.sts), ("op", ctx.ops), ("objs", ctx.sts),
-                      ("plan", ctx.plans)):
+                      ("plan", ctx.plans), ("maplan", ctx.ma_plans)):
         if key in r and r[key] is not None:
             if not pool:
                 return None
@@ -615,6 +704,97 @@ def execute(op, ctx, register=True):
         r.pop("state", None)
         r.pop("text", None)
         return r
+    if k == "joint":
+        # multi_agent.common.apply_actions on a live state: the temporaries it creates become handles
+        dom, st = ctx.doms[op["dom"]], ctx.sts[op["st"]][0]
+        objs = ctx.sts[op["objs"]][1].objects if op.get("objs") is not None else None
+        apps = _applicable_facts(dom, st, op["members"], objs)
+        raised, out = None, None
+        with Recorder() as rec:
+            try:
+                out = _ma_common.apply_actions(dom, st, _members(ctx, op), allow_inapplicable_actions=bool(op.get("allow")),
+                                               problem_objects=objs)
+            except ValueError:
+                raised = "ValueError"
+        r = _register_joint(ctx, rec, [out] if out is not None else [], register)
+        r.update({"new": "J", "apps": apps})
+        if raised:
+            r["raised"] = raised
+            return r
+        r.update(state_res(out))
+        r.update({"result_is_input": out is st, "result_is_init": bool(out.is_init)})
+        return r
+    if k == "ma_triplet":
+        # MultiAgentTrajectoryExporter.create_multi_agent_triplet on a live state
+        dom, st = ctx.doms[op["dom"]], ctx.sts[op["st"]][0]
+        objs = ctx.sts[op["objs"]][1].objects
+        apps = _applicable_facts(dom, st, op["members"], objs)
+        raised, t = None, None
+        with Recorder() as rec:
+            try:
+                t = MultiAgentTrajectoryExporter(dom, allow_invalid_actions=bool(op.get("allow_exporter"))) \
+                    .create_multi_agent_triplet(st, _joint_text(op["members"]), objs,
+                                                allow_inapplicable_actions=bool(op.get("allow")))
+            except ValueError:
+                raised = "ValueError"
+        r = _register_joint(ctx, rec, [t.next_state] if t is not None else [], register)
+        r.update({"new": "J", "apps": apps})
+        if raised:
+            r["raised"] = raised
+            return r
+        r.update(state_res(t.next_state))
+        r.update({"previous_is_input": t.previous_state is st, "result_is_input": t.next_state is st,
+                  "result_is_init": bool(t.next_state.is_init),
+                  "ops": hashlib.sha1(" ".join(str(o) for o in t.joint_action).encode()).hexdigest()[:12]})
+        return r
+    if k == "ma_plan":
+        # MultiAgentTrajectoryExporter.parse_plan on the problem of state `objs` (starts from a State over the problem's
+        # own initial dicts, the value registered as that handle)
+        dom, prob = ctx.doms[op["dom"]], ctx.sts[op["objs"]][1]
+        # facts for the model: applicability of each acting member in the state its step starts from (driver's own run)
+        apps, cur = [], State(prob.initial_state_predicates, prob.initial_state_fluents, is_init=True)
+        for step in op["steps"]:
+            a = _applicable_facts(dom, cur, step, prob.objects)
+            apps.append(a)
+            try:
+                cur = _ma_common.apply_actions(dom, cur, [ActionCall("nop", []) if m.get("nop") else ActionCall(m["act"], list(m["args"])) for m in step],
+                                               allow_inapplicable_actions=bool(op.get("allow") or op.get("allow_exporter")),
+                                               problem_objects=prob.objects)
+            except Exception:  # noqa
+                break
+        raised, trips = None, None
+        with Recorder() as rec:
+            try:
+                trips = MultiAgentTrajectoryExporter(dom, allow_invalid_actions=bool(op.get("allow_exporter"))) \
+                    .parse_plan(prob, action_sequence=[_joint_text(step) for step in op["steps"]],
+                                allow_inapplicable_actions=bool(op.get("allow")))
+            except ValueError:
+                raised = "ValueError"
+        r = _register_joint(ctx, rec, [t.next_state for t in trips] if trips else [], register)
+        r.update({"new": "J", "apps": apps})
+        # the initial State parse_plan built is the INPUT of its first step: it must still be what it was when created
+        r["input_changed"] = [pos for pos, (st0, d0) in enumerate(rec.inits) if digest([st0]) != d0]
+        if raised:
+            r["raised"] = raised
+            return r
+        if register:
+            ctx.ma_plans.append(trips)
+            where = {id(st_): i for i, (st_, _) in enumerate(ctx.sts)}
+            r["plan_states"] = [where.get(id(t.next_state), -1) for t in trips]     # the handles of the triplets' next states
+        r.update(state_res(trips[-1].next_state))
+        r.pop("state", None)
+        r.pop("text", None)
+        r.update({"n": len(trips), "first_is_init": bool(trips[0].previous_state.is_init),
+                  "chained": all(trips[i + 1].previous_state is trips[i].next_state for i in range(len(trips) - 1)),
+                  "aliased": [i for i, t in enumerate(trips) if t.next_state is t.previous_state],
+                  "traj": hashlib.sha1(json.dumps([state_res(t.next_state)["canon"] for t in trips]).encode()).hexdigest()[:12]})
+        return r
+    if k == "ma_export_traj":
+        trips = ctx.ma_plans[op["maplan"]]
+        lines = MultiAgentTrajectoryExporter.export(trips)
+        return {"len": len(lines), "ops": hashlib.sha1("".join(l for l in lines if l.startswith("(operators")).encode()).hexdigest()[:12],
+                "first": lines[0][:8],
+                "canon": hashlib.sha1(json.dumps([state_res(t.next_state)["canon"] for t in trips]).encode()).hexdigest()[:12]}
     if k == "export_traj":
         trips = ctx.plans[op["plan"]]
         lines = TrajectoryExporter.export(trips)
@@ -692,11 +872,11 @@ def execute(op, ctx, register=True):
 
 QUERY = {"applicable", "apply", "copy", "serialize", "typed_serialize", "state_objects", "str_op", "str_action",
          "export", "triplet", "plan", "export_traj", "export_problem", "str_domain", "state_eq", "parse_traj",
-         "convert_plan"}
+         "convert_plan", "joint", "ma_triplet", "ma_plan", "ma_export_traj"}
 
 
 def strip(res):
-    return {k: v for k, v in res.items() if k not in ("new", "base_s", "base_o")}
+    return {k: v for k, v in res.items() if k not in ("new", "base_s", "base_o", "n_ops", "n_states", "plan_states")}
 
 
 def strip_x(res):
@@ -733,7 +913,10 @@ def run_history(job, wdir, shared_domains=None, oracle=True, watch=None, mark_st
             op["objs"] = pj
             if pj is None:
                 op["objs"] = None
-        if op["k"] in ("triplet", "plan", "convert_plan"):
+        if op["k"] == "joint" and op.get("objs") is not None:
+            pj, _ = problem_of(ctx, op["objs"])
+            op["objs"] = pj
+        if op["k"] in ("triplet", "plan", "convert_plan", "ma_triplet", "ma_plan"):
             pj, _ = problem_of(ctx, op["objs"])
             if pj is None:
                 steps.append({"op": raw, "skipped": True})
@@ -755,6 +938,13 @@ def run_history(job, wdir, shared_domains=None, oracle=True, watch=None, mark_st
             okeys, now = ctx.indep.check() if ctx.indep is not None else ([], None)
             after = ctx.protected_digests()
             step["changed"], ichanged, schanged = _split_changed(before, after)
+            if res.get("input_changed"):
+                # the initial State object MultiAgentTrajectoryExporter.parse_plan built over the problem's own dicts - the
+                # state its first step was given - is not what it was when it was created: the problem's initial state changed
+                name = "S%d" % op["objs"]
+                if name not in step["changed"]:
+                    step["changed"] = sorted(step["changed"] + [name])
+                step["input_state_changed"] = "the initial State built by parse_plan (is_init / facts / fluents)"
             step["sharing"] = ctx.sharing()
             if schanged:
                 step["statics_changed"] = schanged
